@@ -191,51 +191,91 @@ def r2(ctx):
 
 
 def r3(ctx):
+    """session accounting in sync_process_message, looked for in the function, its closures and its
+    single-caller helpers (scope); sites are placed in the function body through outer_site"""
+    from .common import outer_leaves, outer_site, variant_edges, dominated_by_any
     f = ctx.facts
     b = f.body(SPM)
     ctx.touch(b)
+    sc = f.scope(SPM, prefix="sync::")
     pmc = [(bi, t) for bi, t in b.calls() if t["f"].get("name") == "process_message"]
     if len(pmc) != 1:
         raise mir.AnchorMissing("sync_process_message: process_message call not found")
     pbi = pmc[0][0]
-    vc = [(bi, t) for bi, t in b.calls() if t["f"].get("name") == "value_count"]
-    # writes to state.num_recv / num_sent
-    recv = [(bi, s) for bi, si, s in b.statements() if s["k"] == "assign" and s["p"]["p"] and s["p"]["p"][-1][0] == "field" and s["p"]["p"][-1][2] == "num_recv"]
-    sent = [(bi, s) for bi, si, s in b.statements() if s["k"] == "assign" and s["p"]["p"] and s["p"]["p"][-1][0] == "field" and s["p"]["p"][-1][2] == "num_sent"]
-    ok = len(recv) == 1 and b.dominates(recv[0][0], pbi)
+    after = b.reachable(pbi)
+
+    def names(body, op):
+        return {(o.kind, o.data[1] if o.kind == "arg" else o.data) if o.kind in ("arg", "upvar") else ("other", origin_summary(o)) for _, o in outer_leaves(f, b, body, op, expand_calls=False)}
+
+    def counter_adds(field):
+        out = []
+        for x in sc:
+            for bi, si, st in x.statements():
+                if st["k"] == "assign" and st["r"][0] == "bin" and st["r"][1] in ("Add", "AddWithOverflow"):
+                    ops = (st["r"][2], st["r"][3])
+                    if any(o[0] in ("copy", "move") and any(pr[0] == "field" and pr[2] == field for pr in o[1]["p"]) for o in ops):
+                        other = [o for o in ops if not (o[0] in ("copy", "move") and any(pr[0] == "field" and pr[2] == field for pr in o[1]["p"]))]
+                        out.append((x, bi, st, other[0] if other else None))
+        return out
+
+    def value_count_of(body, op):
+        """names of the message whose value_count() feeds `op`"""
+        res = set()
+        if op is None or op[0] == "const":
+            return res
+        for o in trace(body, op, through_calls=False):
+            if o.kind == "call" and o.data["f"].get("name") == "value_count":
+                res |= names(body, o.data["a"][0])
+            else:
+                res.add(("other", origin_summary(o)))
+        return res
+    radds = counter_adds("num_recv")
+    ok = len(radds) == 1
+    why = "%d additions to num_recv" % len(radds)
     if ok:
-        src = leaves(b, recv[0][1]["r"][1] if recv[0][1]["r"][0] == "use" else recv[0][1]["r"][2], expand_calls=False) if recv[0][1]["r"][0] in ("use",) else []
-        ok = any(o.kind == "call" and o.data["f"].get("name") == "value_count" and {origin_summary(x) for x in trace(b, o.data["a"][0])} <= {"upvar:message", "arg:message"} for o in src) or \
-            any(o.kind == "expr" for o in src)
-        # accept `num_recv += n`: AddWithOverflow(num_recv, value_count(message))
-        adds = [s for _, _, s in b.statements() if s["k"] == "assign" and s["r"][0] == "bin" and s["r"][1] in ("Add", "AddWithOverflow") and
-                any(any(pr[0] == "field" and pr[2] == "num_recv" for pr in o[1]["p"]) for o in (s["r"][2], s["r"][3]) if o[0] in ("copy", "move"))]
-        ok = len(adds) == 1 and any(o.kind == "call" and o.data["f"].get("name") == "value_count" for x in (adds[0]["r"][2], adds[0]["r"][3]) if x[0] != "const" for o in trace(b, x, through_calls=False))
-    ctx.check(ok, "C01.R3", SPM, "num_recv+=message.value_count()-before-processing", "the received counter is increased by the incoming value count before process_message", recv[0][1]["sp"] if recv else b.sp)
-    oks = len(sent) == 1
+        x, bi, st, other = radds[0]
+        src = value_count_of(x, other)
+        ob = outer_site(f, b, x, bi)
+        ok = src in ({("upvar", "message")}, {("arg", "message")}) and ob is not None and b.dominates(ob, pbi) and ob not in after
+        why = "num_recv += value_count(%s), placed %s process_message" % (sorted(src), "before" if ob is not None and ob not in after else "not before")
+    ctx.check(ok, "C01.R3", SPM, "num_recv+=message.value_count()-before-processing", "the received counter is increased by the incoming value count before process_message (%s)" % why, radds[0][2]["sp"] if radds else b.sp)
+    sadds = counter_adds("num_sent")
+    oks = len(sadds) == 1
+    why = "%d additions to num_sent" % len(sadds)
     if oks:
-        # dominated by an edge on which the reply is Some
-        from .common import variant_edges, dominated_by_any
+        x, bi, st, other = sadds[0]
+        ob = outer_site(f, b, x, bi)
         es = variant_edges(b, lambda ty: ty.startswith("std::option::Option<") and "ranger::Message" in ty, 1)
-        doms = dominated_by_any(b, es, sent[0][0])
-        adds = [s for _, _, s in b.statements() if s["k"] == "assign" and s["r"][0] == "bin" and s["r"][1] in ("Add", "AddWithOverflow") and
-                any(any(pr[0] == "field" and pr[2] == "num_sent" for pr in o[1]["p"]) for o in (s["r"][2], s["r"][3]) if o[0] in ("copy", "move"))]
-        from_reply = len(adds) == 1 and any(o.kind == "call" and o.data["f"].get("name") == "value_count" for x in (adds[0]["r"][2], adds[0]["r"][3]) if x[0] != "const" for o in trace(b, x, through_calls=False))
-        oks = doms and from_reply and b.dominates(pbi, sent[0][0])
-    ctx.check(oks, "C01.R3", SPM, "num_sent+=reply.value_count()-iff-reply", "the sent counter is increased by the reply's value count exactly on the Some(reply) edge, after processing", sent[0][1]["sp"] if sent else b.sp)
+        doms = ob is not None and dominated_by_any(b, es, ob)
+        from_reply = False
+        if other is not None and other[0] != "const":
+            for o in trace(x, other, through_calls=False):
+                if o.kind == "call" and o.data["f"].get("name") == "value_count":
+                    # the counted message is the reply: it derives from process_message's result
+                    from_reply = any(oo.kind == "call" and oo.data["f"].get("name") in ("process_message", "branch", "into_future", "poll", "get_context", "new_unchecked") or oo.kind in ("local", "unknown", "expr")
+                                     for _, oo in outer_leaves(f, b, x, o.data["a"][0], expand_calls=False)) and \
+                        not ({("upvar", "message"), ("arg", "message")} & names(x, o.data["a"][0]))
+        oks = bool(doms) and from_reply and ob in after
+        why = "on the Some(reply) edge: %s; counts the reply: %s; after processing: %s" % (bool(doms), from_reply, ob in after if ob is not None else None)
+    ctx.check(oks, "C01.R3", SPM, "num_sent+=reply.value_count()-iff-reply", "the sent counter is increased by the reply's value count exactly on the Some(reply) edge, after processing (%s)" % why, sadds[0][2]["sp"] if sadds else b.sp)
     # heads_received.insert(entry.author(), entry.timestamp()) for every incoming value
-    ins = [(bi, t) for bi, t in b.calls() if callee_matches(t, r"heads::AuthorHeads::insert$")]
-    okh = len(ins) == 1 and b.dominates(ins[0][0], pbi) is False
-    if len(ins) == 1:
-        t = ins[0][1]
-        a1 = {o.data["f"].get("name") for o in trace(b, t["a"][1], through_calls=False) if o.kind == "call"}
-        a2 = {o.data["f"].get("name") for o in trace(b, t["a"][2], through_calls=False) if o.kind == "call"}
-        recv_f = {".".join(mir.field_path(o)) for o in trace(b, t["a"][0])}
-        vals = [(bi2, t2) for bi2, t2 in b.calls() if t2["f"].get("name") == "values"]
-        okh = a1 == {"author"} and a2 == {"timestamp"} and any("heads_received" in x for x in recv_f) and len(vals) == 1
-        # the loop precedes process_message
-        okh = okh and ins[0][0] not in b.reachable(pbi)
-    ctx.check(okh, "C01.R3", SPM, "heads_received<-(author,timestamp)-of-every-incoming-value", "loop over message.values() inserting (entry.author(), entry.timestamp()) before processing", ins[0][1]["sp"] if ins else b.sp)
+    ins = [(x, bi, t) for x in sc for bi, t in x.calls() if callee_matches(t, r"heads::AuthorHeads::insert$")]
+    okh = len(ins) == 1
+    why = "%d calls of AuthorHeads::insert" % len(ins)
+    if okh:
+        x, bi, t = ins[0]
+        a1 = {o.data["f"].get("name") for o in trace(x, t["a"][1], through_calls=False) if o.kind == "call"}
+        a2 = {o.data["f"].get("name") for o in trace(x, t["a"][2], through_calls=False) if o.kind == "call"}
+        recv_f = {".".join(mir.field_path(o)) for _, o in outer_leaves(f, b, x, t["a"][0], expand_calls=False)} | {".".join(mir.field_path(o)) for o in trace(x, t["a"][0])}
+        vals = [(y, bi2, t2) for y in sc for bi2, t2 in y.calls() if t2["f"].get("name") == "values" and callee_matches(t2, r"ranger::Message")]
+        of_message = len(vals) == 1 and names(vals[0][0], vals[0][2]["a"][0]) in ({("upvar", "message")}, {("arg", "message")})
+        ob = outer_site(f, b, x, bi)
+        vb = outer_site(f, b, vals[0][0], vals[0][1]) if len(vals) == 1 else None
+        # every value: the insert sits in a loop over message.values() or in a closure handed to for_each on it, with no filter in between
+        skipping = [t3["f"].get("name") for y in sc for _, t3 in y.calls() if t3["f"].get("name") in ("filter", "take", "skip", "step_by", "take_while", "skip_while", "filter_map") and y in (x, vals[0][0] if vals else x)]
+        okh = a1 == {"author"} and a2 == {"timestamp"} and any("heads_received" in z for z in recv_f) and of_message and ob is not None and ob not in after and vb is not None and vb not in after and not skipping
+        why = "insert(%s, %s) into %s over values() of %s, placed %s processing, skipping adaptors %s" % (sorted(a1), sorted(a2), sorted(recv_f), "the incoming message" if of_message else "?", "before" if ob is not None and ob not in after else "not before", skipping)
+    ctx.check(okh, "C01.R3", SPM, "heads_received<-(author,timestamp)-of-every-incoming-value", "loop over message.values() inserting (entry.author(), entry.timestamp()) before processing (%s)" % why, ins[0][2]["sp"] if ins else b.sp)
     vcb = f.body("ranger::Message::<E>::value_count")
     ctx.touch(vcb)
     ctx.floor("C01.R3", 3)
